@@ -8,7 +8,13 @@ use std::time::Duration;
 use scrut::config::{DocumentConfig, OutputStreamControl, TestCaseConfig, TestCaseWait};
 use scrut::expectation::ExpectationMaker;
 use scrut::parsers::markdown::MarkdownParser;
-use scrut::parsers::parser::Parser;
+use scrut::parsers::parser::{Parser, ParserType};
+use scrut::escaping::Escaper;
+use scrut::generators::generator::TestCaseGenerator;
+use scrut::generators::markdown::MarkdownTestCaseGenerator;
+use scrut::outcome::Outcome;
+use scrut::output::{ExitStatus, Output};
+use scrut::testcase::TestCase;
 use scrut::rules::registry::RuleRegistry;
 
 use crate::p_escape::hex;
@@ -63,7 +69,26 @@ pub fn main(args: &[String], w: &mut dyn Write) {
     let p = MarkdownParser::new(mk, &["scrut"], Some(TestCaseConfig::empty()));
     for i in 0..(count / nsh) {
         let c = gen_cfg(&mut r);
-        if i % 3 != 2 {
+        if i % 5 == 4 {
+            // the generator path (create / update --convert): the block header carries only what differs from the defaults of
+            // the format; read back with those defaults the test case has the configuration it was generated from
+            let mut c = c;
+            if r.chance(1, 2) { c.output_stream = Some(OutputStreamControl::Stdout); }            // equal to the format default: left out
+            if r.chance(1, 3) { c.skip_document_code = Some(80); }
+            let tc = TestCase { title: "".into(), shell_expression: "true".into(), expectations: vec![], exit_code: None, line_number: 0, config: c.clone() };
+            let output = Output { stdout: vec![].into(), stderr: vec![].into(), exit_code: ExitStatus::Code(0) };
+            let dflt = TestCaseConfig::default_markdown();
+            let res = std::panic::catch_unwind(std::panic::AssertUnwindSafe(|| {
+                let outcome = Outcome { location: None, output: output.clone(), testcase: tc.clone(), format: ParserType::Markdown, escaping: Escaper::Unicode, result: tc.validate(&output) };
+                let generated = MarkdownTestCaseGenerator::default().generate_testcases(&[&outcome]).map_err(|_| "generr".to_string())?;
+                let pd = MarkdownParser::new(Arc::new(ExpectationMaker::new(RuleRegistry::default())), &["scrut"], None);
+                let (_, t) = pd.parse(&generated).map_err(|_| format!("err:{}", hex(generated.as_bytes())))?;
+                if t.len() != 1 { return Err(format!("count{}", t.len())); }
+                Ok::<(String, String), String>((generated, show(&t[0].config)))
+            }));
+            let (text, back) = match res { Err(_) => ("-".to_string(), "panic".to_string()), Ok(Err(e)) => ("-".to_string(), e), Ok(Ok((g, b))) => (hex(g.as_bytes()), b) };
+            writeln!(w, "Y 3 {}|{}|{}|{}|{}", show(&c), text, back, show(&c.with_defaults_from(&dflt)), show(&dflt)).unwrap();
+        } else if i % 3 != 2 {
             // one-liner -> fence line -> real parser
             let one = c.to_yaml_one_liner();
             let doc = format!("```scrut {}\n$ true\n```\n", one);
